@@ -215,7 +215,7 @@ ELSE_ELSES = ['PRINT "NOT B"', 'GOSUB 100', 'Z = 2']
 ELSE_RESUME = [(lead, a, b, then) for lead in ELSE_LEADS for a in (0, 1) for b in (0, 1) for then in ELSE_THENS]
 # ... and nested IFs with one ELSE each on the same line: a statement of the inner IF that leaves and comes back
 # (or pauses) lands on the OUTER ELSE, with the inner ELSE between it and its THEN
-NESTED_ELSES = ['GOSUB 100', 'INPUT Z', 'PRINT "E2"', 'STOP']
+NESTED_ELSES = ['GOSUB 100', 'INPUT Z', 'PRINT "E2"', 'STOP', ':', 'Z = 3', 'IF A THEN PRINT "E4"', 'REM']
 ELSE_RESUME += [("nested", a, b, (s1, s2)) for a in (0, 1) for b in (0, 1) for s1 in ELSE_THENS for s2 in NESTED_ELSES]
 
 
